@@ -19,6 +19,10 @@ def deep_snap(a):
     out.append(json.dumps(a.attrs, sort_keys=True, default=repr))
     return out
 
+def _stats():
+    import dimarray.lib.stats as st
+    return st
+
 def snap_diff(b, a):
     names = ['values', 'dtype', 'shape', 'dims']
     for k, (x, y) in enumerate(zip(b, a)):
@@ -68,6 +72,7 @@ class Operands:
             if ins and ins[0].ndim >= 1:
                 try: objs.append(('transposed alias of operand 0', ins[0].transpose(*ins[0].dims[::-1])))
                 except Exception: pass
+            derived = [None]
             def run():
                 r = ops.run_ops(ins, c['ops'])
                 # further non-in-place operations on the same operands: serialisation, Dataset construction and use, comparison, unary ops
@@ -82,8 +87,23 @@ class Operands:
                               # reindexing onto labels of the same length that sit at their own positions, one of them absent
                               lambda: [x.reindex_axis([l if j != k else (l - 0.25 if not isinstance(l, str) else l + '_') for j, l in enumerate(ax.values.tolist())], axis=ax.name, **kw)
                                        for ax in x.axes for k in range(ax.size) for kw in ({}, {'method': 'left'})],
-                              lambda: D.concatenate([x, x], axis=0, align=True, sort=True) if x.ndim > 1 else None):
+                              lambda: D.concatenate([x, x], axis=0, align=True, sort=True) if x.ndim > 1 else None,
+                              # percentiles / quantiles along every axis, by position and by name (results share the other Axis objects)
+                              lambda: [f_(x, q, axis=r_) for r_ in list(range(x.ndim)) + list(x.dims)
+                                       for f_, q in ((_stats().percentile, [25, 90]), (_stats().quantile, [0.25, 0.9]), (_stats().percentile, 50))]
+                                      if x.values.dtype.kind in 'if' else None):
                         try: f()
+                        except Exception: pass
+                    # operations on an array DERIVED from the operand (not among the snapshots above): n-d boolean indexing gives one
+                    # plain Axis named 'd0,d1,...' (labels = tuples), which reshape must not rename in its operand
+                    if x.ndim >= 2 and derived[0] is None:
+                        try:
+                            b = x[x == x]; sb = deep_snap(b)
+                            for nd in ((b.dims[0], 'new'), ('new', b.dims[0])):
+                                try: b.reshape(*nd)
+                                except Exception: pass
+                            d = snap_diff(sb, deep_snap(b))
+                            if d: derived[0] = 'the result of n-d boolean indexing (one plain axis named %r) after reshape (non-in-place): %s changed' % (sb[3][0], d)
                         except Exception: pass
                 return r
         for _, x in objs:
@@ -96,6 +116,7 @@ class Operands:
         for (nm, x), b in zip(objs, before):
             d = snap_diff(b, deep_snap(x))
             if d: c['_changed'] = '%s: %s changed' % (nm, d); break
+        if c['_changed'] is None and c['src'] != 'c14' and derived[0]: c['_changed'] = derived[0]
         if c['src'] == 'c14' and c['_changed'] is None:
             for i, ds in enumerate(dss):
                 if json.dumps(ds.attrs, sort_keys=True, default=repr) != meta_before[i] or tuple(ds.dims) != dims_before[i]:
